@@ -130,6 +130,11 @@ def properElems : Datum → Option (List Datum)
   | .nil _ => some []
   | _ => none
 
+/-- the elements of a vector; `none` for any other datum -/
+def vecElems : Datum → Option (List Datum)
+  | .vec ds _ => some ds
+  | _ => none
+
 /-- `f` on every element; `none` as soon as one element has no image -/
 def mapOpt {α β : Type} (f : α → Option β) : List α → Option (List β)
   | [] => some []
@@ -205,6 +210,21 @@ def specMatchList (lits : List String) : List Pat → List Datum → Option Bind
         | _, _ => none
       | [] => none
 end
+
+/-- element-wise matching of `n` patterns against `n` data (no ellipsis): the bindings of the
+elements, concatenated -/
+def elementwise (m : Pat → Datum → Option Bindings) : List Pat → List Datum → Option Bindings
+  | [], [] => some []
+  | p :: ps, d :: ds =>
+    match m p d, elementwise m ps ds with
+    | some β₁, some β₂ => some (β₁ ++ β₂)
+    | _, _ => none
+  | _, _ => none
+
+/-- a list pattern with the given elements -/
+def Pat.ofList : List Pat → Pat
+  | [] => .nil
+  | p :: ps => .pair p (Pat.ofList ps)
 
 /-! ## Substitution tables and bindings -/
 
